@@ -100,7 +100,7 @@ def cross_process_twin(ctx, n):
     for i in range(n):
         cls = ("SolverReplacement", "SolverReplacement:noauto")[i % 2]
         hist = []
-        for d in L.gen_history(ctx.rng, ctx.pick(14, 24), weights=w, replace=0.35):
+        for d in L.gen_history(ctx.rng, ctx.pick(14, 24), weights=w, replace=0.35, replace_any=i % 2 == 1):
             d = dict(d)
             for key in ("cs", "es", "extra"):
                 if key in d:
@@ -134,6 +134,33 @@ def cross_process_twin(ctx, n):
                 bad.append({"cls": cls, "hist": hist, "cut": cut, "k": cut + k, "why": "original: %s, restored in a fresh process: %s" % (str(a)[:160], str(b)[:160])})
                 break
     return bad
+
+
+# expressions whose hash is different in every process (annotations, floating point) next to ordinary ones
+IDENT_SRCS = ["xa", "xa + 1", "xs & 3", "If(ULT(xa, 3), xs, x)", "fa", "fa + FPV(1.5, FSORT_DOUBLE)", "fa == FPV(1.5, FSORT_DOUBLE)",
+              "x + 1", "Or(b, x == 7)", "Or(b, xa == 7)", "ZeroExt(1, y) == xs + 1"]
+
+
+def cross_process_identity(ctx, nchild):
+    """a restored expression is an expression of the receiving process like any other: interned under the hash that process
+    computes for it, so that building the same expression again yields the same object and dictionaries keyed by hash find it.
+    (Whether it is also the object built from SOURCE there is recorded but not demanded: the order of an annotation tuple comes
+    from a frozenset and differs between processes, so `xs & 3` built here and restored there are structurally equal only.)"""
+    uni = L.Universe()
+    asts = [uni.parse(t) for t in IDENT_SRCS]
+    native = 0
+    for _ in range(nchild):
+        res = child({"mode": "ident", "blob": pickle.dumps(asts, -1).hex(), "srcs": IDENT_SRCS}, ctx.rng.randrange(1, 2 ** 31))
+        for src, (again, recomputed, found, nat) in zip(IDENT_SRCS, res["ident"]):
+            ctx.count()
+            native += bool(nat)
+            if not (again and recomputed and found):
+                ctx.violation("C18/expression/fresh-process-identity",
+                              "%s restored in a fresh process: building it again from its parts gives the same object=%s, its hash is the one "
+                              "that process computes=%s, found by that hash=%s" % (src, again, recomputed, found), {"expr": src})
+                return
+        ctx.distinct("xident")
+    ctx.cov["input_distribution"]["fresh-process-identity"] = {"expressions": len(IDENT_SRCS) * nchild, "also_the_object_built_from_source": native}
 
 
 def random_ast(uni, rng, depth=3):
@@ -197,7 +224,8 @@ def run(ctx):
                        "SolverCompositeChild (model correspondence) and SolverComposite, SolverHybrid, SolverReplacement (oracle); (b) solver trees pickled "
                        "after a random prefix, suffix run and judged in a fresh interpreter with a random PYTHONHASHSEED; (c) random annotated expressions "
                        "(depth <= 4): identity in-process, structure and value table equal in a fresh process; (d) SolverReplacement histories with "
-                       "add_replacement(variable, constant): the restored solver tuple runs side by side with the original, answers compared")
+                       "add_replacement(variable, constant): the restored solver tuple runs side by side with the original, answers compared, in-process and (over a variable whose hash differs between processes) in a fresh process; (e) annotated / floating-point "
+                       "expressions restored in a fresh process are the object that process builds natively, under the hash it computes")
     tie_ok = True
     try:
         write_if_changed(os.path.join(LEAN, "Claripy", "Gen", "SolverMro.lean"), ts.render(ts.translate()))
@@ -226,6 +254,7 @@ def run(ctx):
         xf = cross_process_solvers(ctx, ctx.pick(12, 120))
         ctx.cov["input_distribution"]["fresh-process-solvers"] = {"solver_trees": ctx.pick(12, 120)}
         expression_round_trips(ctx, ctx.pick(150, 2000), ctx.pick(2, 10))
+        cross_process_identity(ctx, ctx.pick(2, 8))
         for f in cross_process_twin(ctx, ctx.pick(6, 60))[:2]:
             ctx.violation("C18/%s/%s/restored-differs:fresh-process" % (f["cls"], f["hist"][f["k"]]["op"]),
                           "%s %s: %s" % (f["cls"], f["hist"][f["k"]], f["why"]),
@@ -238,8 +267,8 @@ def run(ctx):
     # original and every answer is compared
     uni = L.Universe()
     tw_ran = 0
-    for cls in ("SolverReplacement", "SolverReplacement:noauto"):
-        found, ran = L.twin_search(uni, ctx.rng, cls, "restored", ctx.pick(16, 200), ctx.pick(14, 30))
+    for cls in ("SolverReplacement", "SolverReplacement:noauto", "SolverHybrid"):
+        found, ran = L.twin_search(uni, ctx.rng, cls, "restored", ctx.pick(12, 200), ctx.pick(14, 30), approx=0.5 if cls == "SolverHybrid" else 0.0)
         tw_ran += ran
         ctx.count(ran)
         for f in found[:2]:
@@ -274,4 +303,21 @@ def run(ctx):
 
 
 def replay(ctx, obj):
+    r = obj["replay"]
+    if "expr" in r and "history" not in r:
+        uni = L.Universe()
+        try:
+            a = uni.parse(r["expr"])
+        except Exception:  # noqa: BLE001   a randomly built expression: printed form only
+            print("expression %s (randomly built; rerun the check with the recorded seed)" % r["expr"])
+            return 0
+        bad = 0
+        for seed in (11, 12):
+            res = child({"mode": "ident", "blob": pickle.dumps([a], -1).hex(), "srcs": [r["expr"]]}, seed)
+            print("fresh process, PYTHONHASHSEED=%d: rebuilt is same object, hash recomputed, found by hash, (same as built from source) = %s" % (seed, res["ident"][0]))
+            bad += not all(res["ident"][0][:3])
+        if bad == 2:
+            print("VIOLATION property=C18 replay=(given)")
+            return 1
+        return 0
     return SC.replay_history("C18", obj)
